@@ -97,6 +97,19 @@ def Rel {α : Type} : Prog α → Prop
   | peek _ _ => False
   | getOff _ => False
 
+/-- the operations decoders are made of once the prefetch hint and the header-cache lookup are set aside -/
+def Core {α : Type} : Prog α → Prop
+  | ret _ => True
+  | fail => True
+  | expect _ _ => False
+  | unpack _ k => ∀ b, Core (k b)
+  | skip _ k => Core k
+  | advance _ k => Core k
+  | setOff _ _ => False
+  | fileLeft k => ∀ i, Core (k i)
+  | peek _ _ => False
+  | getOff _ => False
+
 end Prog
 
 /-! ## `BufferReader` -/
